@@ -21,6 +21,9 @@ type recLogger struct {
 	commits  []recCommit
 	who      func() int // optional: identifies the running task
 	onAppend func()     // optional: called (under the block latch) for every commit
+	// failSeq: optional; the commit with this sequence number is recorded and then REFUSED (Append
+	// returns an error). A logger may fail; the collection must keep offering it every later commit.
+	failSeq func(seq int) error
 }
 
 func (l *recLogger) Append(c commit.Commit) error {
@@ -33,8 +36,13 @@ func (l *recLogger) Append(c commit.Commit) error {
 	if l.onAppend != nil {
 		l.onAppend() // under the lock: the i-th call belongs to the i-th recorded commit
 	}
-	l.commits = append(l.commits, recCommit{ID: c.ID, Chunk: c.Chunk, Clone: cl, Task: task, Seq: len(l.commits)})
+	seq := len(l.commits)
+	l.commits = append(l.commits, recCommit{ID: c.ID, Chunk: c.Chunk, Clone: cl, Task: task, Seq: seq})
+	fail := l.failSeq
 	l.mu.Unlock()
+	if fail != nil {
+		return fail(seq)
+	}
 	return nil
 }
 
@@ -54,10 +62,12 @@ func (l *recLogger) Since(n int) []recCommit {
 type multiLogger []commit.Logger
 
 func (m multiLogger) Append(c commit.Commit) error {
+	// every logger gets the commit; the first error is reported
+	var first error
 	for _, l := range m {
-		if err := l.Append(c); err != nil {
-			return err
+		if err := l.Append(c); err != nil && first == nil {
+			first = err
 		}
 	}
-	return nil
+	return first
 }
